@@ -391,7 +391,12 @@ class MethodContext(object):
         self.call_end = time()
         self.app.event_manager.fire_event("method_context_closed", self)
         for f in self.files:
-            f.close()
+            try:
+                f.close()
+
+            except Exception as e:
+                # the other ones still need closing
+                logger.exception(e)
 
         self.is_closed = True
 
